@@ -6813,6 +6813,10 @@ def compile(func, /, *, stats: typing.Optional[str] = None, cache_const_intermed
         # Make all cached results immutable.
         for v in cache_vars:
             main.append(_pyast.Exec(v.get_attr('setflags').call(write=_pyast.LiteralBool(False))))
+        # Results that are views of a cached intermediate were created before
+        # the latter was made immutable; protect the cache against writes via
+        # the returned arrays of the first run.
+        main.append(_pyast.Exec(_pyast.Variable('evaluable').get_attr('_freeze_views_of').call(_pyast.Tuple(tuple(py_funcs)), _pyast.Tuple(cache_vars))))
         # Combine `main` (for the first run) and `main_rerun` into `main`.
         main.append(_pyast.Assign(first_run, _pyast.LiteralBool(False)))
         main = _pyast.Block([
@@ -6893,6 +6897,14 @@ def _define_loop_block_structure(targets: typing.Tuple[Evaluable, ...]) -> typin
     id_map = util.IDDict()
     build_id_map(groups, ())
     return tuple(util.shallow_replace(id_map.get, target) for target in unique_targets)
+
+
+def _freeze_views_of(arrays, immutables):
+    # Make those of `arrays` immutable that share memory with any of `immutables`.
+    immutables = [im for im in immutables if isinstance(im, numpy.ndarray)]
+    for array in arrays:
+        if isinstance(array, numpy.ndarray) and array.flags.writeable and any(numpy.may_share_memory(array, im) for im in immutables):
+            array.flags.writeable = False
 
 
 def _log_stats(func, stats):
